@@ -234,7 +234,7 @@ class SyncApi:
         self.sock = socket.socket(socket.AF_INET, socket.SOCK_DGRAM)
         self.sock.bind(("127.0.0.1", 0))
         port = self.sock.getsockname()[1]
-        e = dict(ev="Open", sid=sid, maxbuf=4080)
+        e = dict(ev="Open", sid=sid, maxbuf=4080, apiuser=text(cfg.user), apiauth=cfg.auth, apipriv=cfg.priv)
         e.update(self.cfgref[0].ev())
         self.rec2.emit(e)
         ver = {"v1": SnmpVersion.v1, "v2c": SnmpVersion.v2c, "v3": SnmpVersion.v3}[cfg.ver]
@@ -296,7 +296,7 @@ class AsyncApi:
                 core.handle(data, lambda d: s.transport.sendto(d, addr))
         self.transport, self.proto = await loop.create_datagram_endpoint(Proto, local_addr=("127.0.0.1", 0))
         port = self.transport.get_extra_info("sockname")[1]
-        e = dict(ev="Open", sid=sid, maxbuf=4080)
+        e = dict(ev="Open", sid=sid, maxbuf=4080, apiuser=text(cfg.user), apiauth=cfg.auth, apipriv=cfg.priv)
         e.update(self.cfgref[0].ev())
         self.rec2.emit(e)
         ver = {"v1": SnmpVersion.v1, "v2c": SnmpVersion.v2c, "v3": SnmpVersion.v3}[cfg.ver]
